@@ -23,3 +23,82 @@ package cmd
 //@ spec tsUntil(ts *TimeSeries) int = ite(ts == nil, 0, ts.untilTime)
 //@ spec tsStep(ts *TimeSeries) int = ite(ts == nil, 0, ts.step)
 //@ spec sameShape(a *TimeSeries, b *TimeSeries) bool = tsFrom(a) == tsFrom(b) && tsUntil(a) == tsUntil(b) && tsStep(a) == tsStep(b)
+
+//@ func fetchTimeSeriesList
+//@   props C16 C08 C09 C10 C18
+//@   requires handleOK(db) && now != 0 && clockOK(db, now) && now - from <= 2147483647
+//@   ensures bad_id: (archiveID < -1 || archiveID >= len(db.header.archiveInfoList)) ==> result1 != nil && !isio(result1) && len(result0) == 0
+//@   ensures bad_window: from > until ==> result1 != nil
+//@   ensures kind: (archiveID >= -1 && archiveID < len(db.header.archiveInfoList) && from <= until) ==> result1 == nil || isio(result1)
+//@   ensures ok: result1 == nil ==> len(result0) == len(db.header.archiveInfoList) && fresh(result0)
+//@   ensures unselected: result1 == nil && archiveID >= 0 ==> forall i :: 0 <= i && i < len(result0) && i != archiveID ==> result0[i] == nil
+//@ loop fetchTimeSeriesList#0
+//@   invariant bounds: 0 <= i && i <= len(db.header.archiveInfoList) && len(tsList) == len(db.header.archiveInfoList) && tsList.arr > old(top)
+//@   invariant noiter: from > until ==> i == 0
+
+//@ func fetchRawPointsLists
+//@   props C16 C18
+//@   requires handleOK(db)
+//@   ensures bad_id: (archiveID < -1 || archiveID >= len(db.header.archiveInfoList)) ==> result1 != nil && !isio(result1)
+//@   ensures kind: (archiveID >= -1 && archiveID < len(db.header.archiveInfoList)) ==> result1 == nil || isio(result1)
+//@   ensures ok: result1 == nil ==> len(result0) == len(db.header.archiveInfoList) && fresh(result0)
+//@   ensures all: result1 == nil && archiveID == -1 ==> forall k :: 0 <= k && k < len(result0) ==> len(result0[k]) == countOf(db, k)
+//@                 && (forall j :: 0 <= j && j < countOf(db, k) ==> result0[k][j].Time == slotT(db, k, j) && bits(result0[k][j].Value) == slotB(db, k, j))
+//@   ensures one: result1 == nil && archiveID >= 0 ==> len(result0[archiveID]) == countOf(db, archiveID)
+//@                 && (forall j :: 0 <= j && j < countOf(db, archiveID) ==> result0[archiveID][j].Time == slotT(db, archiveID, j) && bits(result0[archiveID][j].Value) == slotB(db, archiveID, j))
+//@                 && (forall i :: 0 <= i && i < len(result0) && i != archiveID ==> len(result0[i]) == 0)
+//@ loop fetchRawPointsLists#0
+//@   invariant bounds: 0 <= i && i <= len(db.header.archiveInfoList) && len(ptsList) == len(db.header.archiveInfoList) && ptsList.arr > old(top)
+//@   invariant done: forall k :: 0 <= k && k < i ==> len(ptsList[k]) == countOf(db, k)
+//@                 && (forall j :: 0 <= j && j < countOf(db, k) ==> ptsList[k][j].Time == slotT(db, k, j) && bits(ptsList[k][j].Value) == slotB(db, k, j))
+
+//@ func (TimeSeriesList).PointsList
+//@   props C18 C16
+//@   ensures shape: len(result) == len(tl) && fresh(result)
+//@   ensures each: forall i :: 0 <= i && i < len(tl) ==> len(result[i]) == tsLen(tl[i])
+//@                 && (tl[i] != nil ==> forall j :: 0 <= j && j < len(tl[i].values) ==> result[i][j].Time == tsTime(tl[i].fromTime, j, tl[i].step) && bits(result[i][j].Value) == bits(tl[i].values[j]))
+//@ loop (TimeSeriesList).PointsList#0
+//@   invariant bounds: 0 <= i && i <= len(tl) && len(pl) == len(tl) && pl.arr > old(top)
+//@   invariant each: forall k :: 0 <= k && k < i ==> len(pl[k]) == tsLen(tl[k])
+//@                 && (tl[k] != nil ==> forall j :: 0 <= j && j < len(tl[k].values) ==> pl[k][j].Time == tsTime(tl[k].fromTime, j, tl[k].step) && bits(pl[k][j].Value) == bits(tl[k].values[j]))
+
+//@ func (TimeSeriesList).Diff
+//@   props C09 C08 C11
+//@   ensures lens: len(result0) == len(tl) && len(result1) == len(ul)
+//@   ensures each: len(tl) == len(ul) ==> forall k :: 0 <= k && k < len(tl) ==> diffOf(tl[k], ul[k], result0[k], result1[k])
+//@ loop (TimeSeriesList).Diff#0
+//@   invariant bounds: 0 <= i && i <= len(tl) && len(tl) == len(ul) && len(pl2) == len(tl) && len(ql2) == len(ul) && pl2.arr > old(top) && ql2.arr > old(top) && pl2.arr != ql2.arr
+//@   invariant each: forall k :: 0 <= k && k < i ==> diffOf(tl[k], ul[k], pl2[k], ql2[k])
+
+//@ spec diffOf(a *TimeSeries, b *TimeSeries, p Points, q Points) bool =
+//@        ((a == nil || b == nil) && tsLen(a) == tsLen(b) ==> len(p) == 0 && len(q) == 0)
+//@        && (tsLen(a) != tsLen(b) ==> len(p) == tsLen(a) && len(q) == tsLen(b))
+//@        && (a != nil && b != nil && len(a.values) == len(b.values) ==> len(p) == tsDiffCnt(a, b, len(a.values)) && len(q) == len(p)
+//@            && (forall i :: 0 <= i && i < len(a.values) && tsDiffers(a, b, i) ==> 0 <= tsDiffCnt(a, b, i) && tsDiffCnt(a, b, i) < len(p)
+//@                && p[tsDiffCnt(a, b, i)].Time == tsTime(a.fromTime, i, a.step) && bits(p[tsDiffCnt(a, b, i)].Value) == bits(a.values[i])
+//@                && bits(q[tsDiffCnt(a, b, i)].Value) == bits(b.values[i]) && q[tsDiffCnt(a, b, i)].Time == tsTime(b.fromTime, i, a.step)))
+
+// ---------------------------------------------------------------- sum (C10)
+
+//@ spec addF(a fp64v, b fp64v) fp64v = ite(isNaN(a), b, ite(isNaN(b), a, a + b))
+//@ spec fileVal(tll []TimeSeriesList, i int, k int, j int) fp64v = fp(tll[i][k].values[j])
+//@ spec nsum(tll []TimeSeriesList, k int, j int, n int) rec fp64 = ite(n <= 1, fileVal(tll, 0, k, j), addF(nsum(tll, k, j, n - 1), fileVal(tll, n - 1, k, j)))
+//@ spec sumInputsOK(tll []TimeSeriesList, k int) bool = len(tll) > 0 && (forall i :: 0 <= i && i < len(tll) ==> 0 <= k && k < len(tll[i]) && tll[i][k] != nil
+//@        && len(tll[i][k].values) == len(tll[0][k].values))
+
+//@ func sumTimeSeriesListForArchive
+//@   props C10 C11
+//@   requires len(tsListList) == 0 || sumInputsOK(tsListList, archiveID)
+//@   ensures empty: len(tsListList) == 0 ==> result == nil
+//@   ensures shape: len(tsListList) > 0 ==> result != nil && fresh(result) && result.fromTime == tsListList[0][archiveID].fromTime
+//@                 && result.untilTime == tsListList[0][archiveID].untilTime && result.step == tsListList[0][archiveID].step
+//@                 && len(result.values) == len(tsListList[0][archiveID].values)
+//@   ensures values: len(tsListList) > 0 ==> forall j :: 0 <= j && j < len(result.values) ==> fp(result.values[j]) == old(nsum(tsListList, archiveID, j, len(tsListList)))
+//@ loop sumTimeSeriesListForArchive#0
+//@   invariant bounds: 0 <= i && i <= len(tsListList) && sumValues.arr > old(top) && len(sumValues) == len(tsListList[0][archiveID].values)
+//@   invariant done: i > 0 ==> forall j :: 0 <= j && j < len(sumValues) ==> fp(sumValues[j]) == old(nsum(tsListList, archiveID, j, i))
+//@ loop sumTimeSeriesListForArchive#1
+//@   invariant bounds: 0 <= j && j <= len(sumValues) && 0 <= i && i < len(tsListList) && sumValues.arr > old(top) && len(sumValues) == len(tsListList[0][archiveID].values)
+//@   invariant done: forall q :: 0 <= q && q < j ==> fp(sumValues[q]) == old(nsum(tsListList, archiveID, q, i + 1))
+//@   invariant rest: i > 0 ==> forall q :: j <= q && q < len(sumValues) ==> fp(sumValues[q]) == old(nsum(tsListList, archiveID, q, i))
+//@   invariant cur: mention(old(nsum(tsListList, archiveID, j, i + 1)))
